@@ -4,6 +4,9 @@ import (
 	"bytes"
 	"encoding/json"
 	"fmt"
+	"os"
+
+	"gitlab.com/gomidi/midi/v2/smf"
 
 	"verif/sim/core"
 	"verif/sim/ref"
@@ -212,6 +215,50 @@ func (s *RoundTrip) Run(env *core.Env, st *core.Stats) (vs []core.Violation) {
 	} else if d := ref.EqualFiles(f, want); d != "" {
 		add(true, core.V("stored-bytes", "content", "reference decoding of written file differs from model: %s", d))
 	}
+	// now and then the same through the file-name API (WriteFile / ReadFile on a real
+	// temporary directory): same bytes on disk, same value back, error for an impossible path
+	if c01 && len(stored)%8 == 0 && env != nil && env.T != nil {
+		st.Probe("file-api-roundtrip")
+		dir := tempDir(env)
+		path := dir + "/roundtrip.mid"
+		val2, _, _ := s.Hist.Build()
+		var werr error
+		var back *smf.SMF
+		var rerr error
+		g := guarded(libBudget, false, func() {
+			werr = val2.WriteFile(path)
+			if werr == nil {
+				back, rerr = smf.ReadFile(path)
+			}
+		})
+		switch {
+		case g.panicked || g.timeout:
+			add(true, core.V("panic", panicKey(g.panicMsg), "WriteFile/ReadFile: %s", g.panicMsg))
+		case werr != nil:
+			add(true, core.V("file-api", "write", "WriteFile of a valid value failed: %v", werr))
+		case rerr != nil:
+			add(true, core.V("file-api", "read", "ReadFile of the file just written failed: %v", rerr))
+		default:
+			onDisk, _ := os.ReadFile(path)
+			if !bytes.Equal(onDisk, stored) {
+				add(true, core.V("file-api", "bytes", "WriteFile stored %d bytes that differ from what WriteTo emits (%d bytes)", len(onDisk), len(stored)))
+			}
+			if got, bad := libToRef(back); bad != "" {
+				add(true, core.V("file-api", "malformed", "ReadFile: %s", bad))
+			} else if d := ref.EqualFiles(got, want); d != "" {
+				add(true, core.V("file-api", "content", "ReadFile differs from what was built: %s", d))
+			}
+		}
+		os.Remove(path)
+		val3, _, _ := s.Hist.Build()
+		var e2 error
+		g2 := guarded(libBudget, false, func() { e2 = val3.WriteFile(dir + "/no-such-dir/x.mid") })
+		if g2.panicked {
+			add(true, core.V("panic", panicKey(g2.panicMsg), "WriteFile to an impossible path: %s", g2.panicMsg))
+		} else if e2 == nil {
+			add(true, core.V("file-api", "impossible-path", "WriteFile into a directory that does not exist returned nil"))
+		}
+	}
 	ro := readBytes(stored, false)
 	switch ro.kind() {
 	case "panic", "timeout":
@@ -231,4 +278,19 @@ func (s *RoundTrip) Run(env *core.Env, st *core.Stats) (vs []core.Violation) {
 
 func strictKey(err error) string {
 	return structKey(err.Error(), 48)
+}
+
+var workerTempDir string
+
+// tempDir returns a per-process scratch directory that is removed when the worker ends.
+func tempDir(env *core.Env) string {
+	if workerTempDir == "" {
+		d, err := os.MkdirTemp("", "verif-files-")
+		if err != nil {
+			panic(err)
+		}
+		workerTempDir = d
+		env.T.Cleanup(func() { os.RemoveAll(d) })
+	}
+	return workerTempDir
 }
